@@ -13,7 +13,8 @@ LEVEL = 'exploration'
 RULE = ('S1: every assignment of a body from a generated menu (role leaf, '
         'constant, and for each name and an undefined name: rule:n, not '
         'rule:n, role:x and rule:n, role:x or (role:y and rule:n), not '
-        '(role:x or rule:n), (rule:n)) to each of 3 (quick) / 4 (thorough) '
+        '(role:x or rule:n), and the sibling shapes not rule:n and rule:m, '
+        'not rule:n or (rule:n and role:x)) to each of 3 (quick) / 4 (thorough) '
         'names: self-loops, 2/3/4-cycles, cycles entered through groups and '
         'negations, diamonds, undefined references; check_rules() must be '
         'False exactly when the independent iterative graph analysis finds '
@@ -45,6 +46,13 @@ def menu(names):
               'not (role:x or rule:%s)' % n]
     m += ['rule:%s and rule:%s' % (names[0], names[-1]),
           'rule:%s or not rule:%s' % (names[-1], names[0])]
+    # a negated reference FIRST and a later sibling that reaches a rule again
+    refs = list(names) + [UNDEF]
+    for n in names:
+        for k in refs:
+            m.append('not rule:%s and rule:%s' % (n, k))
+        m.append('not rule:%s or (rule:%s and role:x)' % (n, n))
+        m.append('not not rule:%s and (role:y or rule:%s)' % (n, names[0]))
     return m
 
 
